@@ -325,6 +325,22 @@ func PrefixSweep(t *testing.T, registry []Entry) {
 				for k := 1; k <= 16; k++ {
 					inputs = append(inputs, append(append([]byte{}, v...), make([]byte, k)...))
 				}
+				// longer extensions: fixed-size scratch buffers behind a lenient "at least n bytes" check only
+				// overflow once the surplus exceeds the buffer (e.g. more than one extra element)
+				n := len(v)
+				for _, k := range []int{17, 31, 32, 33, 48, 56, 57, 63, 64, 65, 96, 97, 127, 128, 129, 255, 256, 257, n - 1, n, n + 1, 2*n - 1, 2 * n, 2*n + 1, 3 * n, 4096} {
+					if k <= 16 || k > 70000 || (e.Cost > 4 && k > 300) {
+						continue
+					}
+					ext := make([]byte, k)
+					inputs = append(inputs, append(append([]byte{}, v...), ext...))
+					for i := range ext { // the surplus is a repetition of the valid encoding itself
+						if n > 0 {
+							ext[i] = v[i%n]
+						}
+					}
+					inputs = append(inputs, append(append([]byte{}, v...), ext...))
+				}
 			}
 		}
 		d := &directTB{t: t}
